@@ -464,13 +464,28 @@ def root_exceptions(ctx, n):
         roots = [other(k) for k in others]
         roots = [failing()] + roots if first else roots + [failing()]
         got = None
+        till = 1000 if ctx.rng.random() < 0.25 else None
+        case['till'] = till
         try:
-            usim.run(*roots)
+            if till is None:
+                usim.run(*roots)
+            else:
+                usim.run(*roots, till=till)
         except BaseException as e:   # noqa
             got = e
         ctx.count(case, nontrivial=bool(others))
         ctx.bump('family:root-exceptions')
-        if got is not err:
+        if till is not None and got is not err and isinstance(got, usim.Concurrent) and len(got.children) == 1 \
+                and got.children[0] is err:
+            # known finding D27: with a till date the roots run as children of an until-scope, whose failure is Concurrent
+            ctx.fail(case, 'run(..., till=%r): a root activity raised %r, run() raised %r (the exception wrapped in Concurrent, not '
+                           'unchanged)' % (till, err, got), finding='D27', family='root-exceptions')
+        elif till is not None and E is Custom and isinstance(got, AssertionError) and 'may only be specialised' in str(got):
+            # known finding D28 (C05): a child failing with a BaseException that is no Exception trips the assertion of
+            # Concurrent[...]; with a till date the roots are such children
+            ctx.fail(case, 'run(..., till=%r): a root activity raised %r, run() raised %r' % (till, err, got), finding='D28',
+                     family='root-exceptions')
+        elif got is not err:
             ctx.fail(case, 'a root activity raised %r; run() %s' % (err, 'returned normally' if got is None else 'raised %r instead' % (got,)),
                      family='root-exceptions')
         if late:
